@@ -511,31 +511,23 @@ func match(pattern ast.Atom, subst *unionfind.UnionFind) (bool, *unionfind.Union
 		if len(pattern.Args) != 3 {
 			return false, nil, fmt.Errorf("wrong number of arguments for built-in predicate ':match_pair': %v", pattern.Args)
 		}
-		leftVar, leftOK := pattern.Args[1].(ast.Variable)
-		rightVar, rightOk := pattern.Args[2].(ast.Variable)
-		if !leftOK || !rightOk {
-			return false, nil, fmt.Errorf("2nd and 3rd arguments must be variables for ':match_pair': %v", pattern)
-		}
 
 		fst, snd, err := scrutinee.PairValue()
 		if err != nil {
 			return false, nil, nil // failing match is not an error
 		}
 		// First argument is indeed a pair. Bind.
-		nsubst, err := unionfind.UnifyTermsExtend([]ast.BaseTerm{leftVar, rightVar}, []ast.BaseTerm{fst, snd}, *subst)
+		// The 2nd and 3rd arguments are variables to bind, or values that the
+		// components have to be equal to (a variable that already has a value).
+		nsubst, err := unionfind.UnifyTermsExtend([]ast.BaseTerm{pattern.Args[1], pattern.Args[2]}, []ast.BaseTerm{fst, snd}, *subst)
 		if err != nil {
-			return false, nil, fmt.Errorf("This should never happen for %v", pattern)
+			return false, nil, nil // failing match is not an error
 		}
 		return true, &nsubst, nil
 
 	case symbols.MatchCons.Symbol:
 		if len(pattern.Args) != 3 {
 			return false, nil, fmt.Errorf("wrong number of arguments for built-in predicate ':match_cons': %v", pattern.Args)
-		}
-		leftVar, leftOK := pattern.Args[1].(ast.Variable)
-		rightVar, rightOk := pattern.Args[2].(ast.Variable)
-		if !leftOK || !rightOk {
-			return false, nil, fmt.Errorf("2nd and 3rd arguments must be variables for ':match_cons': %v", pattern)
 		}
 
 		scrutineeList, err := getListValue(scrutinee)
@@ -547,9 +539,11 @@ func match(pattern ast.Atom, subst *unionfind.UnionFind) (bool, *unionfind.Union
 			return false, nil, nil // failing match is not an error
 		}
 		// First argument is indeed a cons. Bind.
-		nsubst, err := unionfind.UnifyTermsExtend([]ast.BaseTerm{leftVar, rightVar}, []ast.BaseTerm{hd, tail}, *subst)
+		// The 2nd and 3rd arguments are variables to bind, or values that the
+		// components have to be equal to (a variable that already has a value).
+		nsubst, err := unionfind.UnifyTermsExtend([]ast.BaseTerm{pattern.Args[1], pattern.Args[2]}, []ast.BaseTerm{hd, tail}, *subst)
 		if err != nil {
-			return false, nil, fmt.Errorf("This should never happen for %v", pattern)
+			return false, nil, nil // failing match is not an error
 		}
 		return true, &nsubst, nil
 
